@@ -19,7 +19,7 @@ RULE = ("rotation: random component pairs (dyadic/noise/sine, n 1..300/3000), an
 TIE = ("correspondence (hand model Model/Multiple.lean on exact rationals: combineAtAngle with the impl's cos/sin doubles, rotatedDegrees, "
        "timeMatch, sameStart, sectionAverage, timeIndices)")
 NOT_PROVED = ["libm cos/sin/radians are the real functions up to rounding (C18.a is proved over the reals; checked to 1e-12)",
-              "time_match on clusters whose records have different lengths (model and correspondence cover it, the theorem assumes equal lengths)",
+              "time_match on clusters whose records have different lengths IS proved (Props/C18Ragged: time_match_ragged_spec, time_match_ragged_short_raises); the base theorem time_match_spec assumes equal lengths",
               "IEEE rounding of the section means and squared residuals (exact on the dyadic/integer cases, measured otherwise)"]
 ASSUMPTIONS = ["np.cos/np.sin/np.radians are the real functions up to rounding"]
 
